@@ -36,6 +36,12 @@ def obligations(tier):
         obs.append(Ob("decode-decimal-%dch" % nch, "C08/pwhash.c", units=[A2 + "argon2-core.c"] + COMMON, stubs=STUBS,
                       defs={"PART": 3, "NCH": nch}, unwind=30, timeout=900, family="decode-decimal",
                       desc="decode_decimal: value/end pointer, rejects empty, leading zeros, overflow", bounds="all strings of %d characters (+NUL)" % nch))
+    for ol in ((1, 32, 63, 64, 65, 96, 97, 128) if tier != "thorough" else (1, 2, 31, 32, 33, 63, 64, 65, 66, 95, 96, 97, 127, 128, 129, 160, 161, 250)):
+        for il in ((5,) if ol not in (64, 65) else (0, 5, 72)):
+            obs.append(Ob("blake2b-long-out%d-in%d" % (ol, il), "C08/blake2b_long.c", units=[A2 + "blake2b-long.c"] + COMMON, stubs=STUBS + ["ideal_hash.c"],
+                          defs={"OUTLEN": ol, "INLEN": il}, unwind=max(80, il + 8, ol + 8), timeout=600, family="argon2-variable-length-hash",
+                          desc="blake2b_long == RFC 9106 H' over an idealised BLAKE2b (length prefix, single hash up to 64 bytes, 64-byte chain with 32-byte pieces beyond)",
+                          bounds="all input bytes; (output length, input length) enumerated around 32/64/96/128"))
     obs.append(Ob("prefix-dispatch", "C08/pwhash.c", units=["crypto_pwhash/crypto_pwhash.c"] + COMMON, stubs=STUBS, defs={"PART": 4}, unwind=20,
                   timeout=600, family="prefix-dispatch", desc="crypto_pwhash_str_verify / _needs_rehash dispatch on the prefix; unknown prefix -> -1/EINVAL",
                   bounds="all 12-character prefixes"))
